@@ -55,3 +55,53 @@ SYMRT_HARNESS(C01_from_constraints) {
     check_relation_with_congruence(ph, R, ea, eb, mm, "C01");
   }
 }
+
+// Built from symbolic generators with observers and later additions interleaved:
+// drives the pending-generator / minimized states.  The queries are asked FIRST, in
+// the raw lazy state; then the descriptions are compared with the generated set and
+// the recorded answers are judged against the (verified) constraint description.
+SYMRT_HARNESS(C01_from_generators) {
+  unsigned n = symrt::param("n", 2), k = symrt::param("k", 2);
+  long B = symrt::param("B", 1);
+  bool nnc = symrt::param("nnc", 0) != 0;
+  using oracle::Gens; using oracle::Gen;
+  Gens D(n);
+  Generator_System gs0;
+  { Linear_Expression e; Point c; mpz_class d = symrt::input("pd", 1, 2);
+    for (unsigned j = 0; j < n; ++j) { mpz_class cj = symrt::input(S("p", j), -B, B); e += cj * Variable(j); c.push_back(rterm(cj) / rterm(d)); }
+    gs0.insert(point(e, d)); D.g.push_back(Gen(0, c)); }
+  Polyhedron* php = nnc ? static_cast<Polyhedron*>(new NNC_Polyhedron(gs0)) : static_cast<Polyhedron*>(new C_Polyhedron(gs0));
+  std::unique_ptr<Polyhedron> guard(php);
+  Polyhedron& ph = *php;
+  for (unsigned i = 0; i < k; ++i) {
+    int op = symrt::choose(S("op", i), 4);
+    if (op == 1) (void) ph.minimized_constraints(); else if (op == 2) (void) ph.minimized_generators(); else if (op == 3) (void) ph.constraints();
+    Linear_Expression e; Point c; expr nz = bval(false);
+    for (unsigned j = 0; j < n; ++j) { mpz_class cj = symrt::input(S("g", i, j), -B, B); e += cj * Variable(j); c.push_back(rterm(cj)); nz = nz || term(cj) != ival(0); }
+    int kind = symrt::choose(S("gk", i), nnc ? 4 : 3);   // 0 ray, 1 line, 2 point, 3 closure point
+    if (kind <= 1) { symrt::assume(nz); if (kind == 0) { ph.add_generator(ray(e)); D.g.push_back(Gen(2, c)); } else { ph.add_generator(line(e)); D.g.push_back(Gen(3, c)); } }
+    else if (kind == 2) { ph.add_generator(point(e)); D.g.push_back(Gen(0, c)); }
+    else { ph.add_generator(closure_point(e)); D.g.push_back(Gen(1, c)); }
+  }
+  note_status("poly", ph);
+  Answers ans = grab_answers(ph);           // raw lazy state
+  // descriptions vs the generated set
+  oracle::CsSet rs(ph.constraints(), n);
+  symrt::Batch b;
+  b.add(D.inside([&](const Point& p) { return rs.contains(p); }, [&](const Point& p) { return rs.closure_contains(p); }, [&](const Point& d) { return rs.recedes(d); }), "C01 gens: constraints() do not contain the generated set");
+  { Point x = oracle::fresh_point(n); b.add(!(rs.contains(x) && D.not_in(x)), "C01 gens: constraints() larger than the generated set"); }
+  { oracle::CsSet ms(ph.minimized_constraints(), n); Point x = oracle::fresh_point(n); b.add(rs.contains(x) == ms.contains(x), "C01 gens: minimized_constraints() differ from constraints()"); }
+  { Gens G = Gens::from(ph.minimized_generators(), n); Point x = oracle::fresh_point(n);
+    b.add(G.inside([&](const Point& p) { return rs.contains(p); }, [&](const Point& p) { return rs.closure_contains(p); }, [&](const Point& d) { return rs.recedes(d); }), "C01 gens: minimized_generators() outside constraints()");
+    b.add(!(rs.contains(x) && G.not_in(x)), "C01 gens: constraints() outside minimized_generators()"); }
+  b.flush();
+  // the recorded answers against the verified constraint description
+  RefSet R(n);
+  { Constraint_System cs = ph.constraints();
+    for (Constraint_System::const_iterator c = cs.begin(); c != cs.end(); ++c) { std::vector<expr> a; for (unsigned j = 0; j < n; ++j) { Coefficient kk = j < c->space_dimension() ? c->coefficient(Variable(j)) : Coefficient(0); a.push_back(term(kk)); }
+      Coefficient b0 = c->inhomogeneous_term(); R.add(a, term(b0), c->is_equality() ? 0 : c->is_strict_inequality() ? 2 : 1); } }
+  check_bool_queries(ph, R, "C01 gens", &ans);
+  Answers again = grab_answers(ph);
+  symrt::require(again.empty == ans.empty && again.univ == ans.univ && again.bounded == ans.bounded && again.closed == ans.closed, "C01 gens: a query changed its answer after the object was observed");
+  symrt::require(ph.OK(), "C01 gens: OK()");
+}
